@@ -131,6 +131,9 @@ func execC08(seg []Ev) []Ev {
 		if len(specs) > 0 && strings.HasPrefix(specs[0], "tl:") {
 			time.Local = time.FixedZone("host", 19800)
 		}
+		if hz, ok := in["hostzone"]; ok { // a host whose local zone has daylight saving
+			time.Local = zone(toStr(hz))
+		}
 		args := make([]*variants.Variant, len(specs))
 		aj := make([]any, len(specs))
 		for i, s := range specs {
@@ -149,9 +152,38 @@ func execC08(seg []Ev) []Ev {
 			out = append(out, e)
 			continue
 		}
+		if hz, ok := in["hostzone"]; ok {
+			e["hostzone"] = hz
+		}
+		given := append([]*variants.Variant{}, args...)
 		t0 := time.Now().Unix()
 		oc, r, det := opOutcome(func() (*variants.Variant, error) { return fn.Calculate(args, m) })
 		t1 := time.Now().Unix()
+		// the caller's argument list is the caller's: the same objects in the same places after the call
+		e["argsame"] = len(given) == len(args)
+		for i := range given {
+			if i < len(args) && given[i] != args[i] {
+				e["argsame"] = false
+			}
+		}
+		// Date: what the host's calendar gives for the same components in the host's zone (any values, carried as the host carries them)
+		e["hostsec"] = "none"
+		if strings.EqualFold(name, "date") && len(args) >= 2 && len(args) <= 7 {
+			allInt := true
+			c := []int{0, 1, 1, 0, 0, 0, 0}
+			for i, a := range args {
+				if a.Type() != variants.Integer && a.Type() != variants.Long {
+					allInt = false
+				} else if a.Type() == variants.Integer {
+					c[i] = a.AsInteger()
+				} else {
+					c[i] = int(a.AsLong())
+				}
+			}
+			if allInt {
+				e["hostsec"] = strconv.FormatInt(time.Date(c[0], time.Month(c[1]), c[2], c[3], c[4], c[5], c[6], time.Local).Unix(), 10)
+			}
+		}
 		e["outcome"], e["r"], e["t0"], e["t1"] = oc, valJSON(r), int(t0), int(t1)
 		if det != "" {
 			e["detail"] = det
@@ -193,6 +225,21 @@ func execC08(seg []Ev) []Ev {
 				}
 			}
 		}
+		// a result is the caller's to change: the next call must not be affected (deterministic functions only)
+		e["again"] = "same"
+		if oc == "value" && e["hit"] == 0 && r.Type() != variants.Array {
+			switch strings.ToLower(name) {
+			case "ticks", "now", "rnd", "random":
+			default:
+				before := valJSON(r)
+				guarded(func() { r.SetAsString("scribbled by the caller") })
+				_, r2, _ := opOutcome(func() (*variants.Variant, error) { return fn.Calculate(append([]*variants.Variant{}, given...), m) })
+				after := valJSON(r2)
+				if before["t"] != after["t"] || before["s"] != after["s"] {
+					e["again"] = fmt.Sprint(after["t"], ":", after["s"])
+				}
+			}
+		}
 		switch e["canon"] {
 		case "e":
 			e["want"] = strconv.FormatFloat(float64(float32(math.E)), 'g', -1, 64)
@@ -229,6 +276,8 @@ func execC08(seg []Ev) []Ev {
 var c08generic = []string{"i:0", "i:3", "i:-8", "l:5", "l:-2", "f:1.5", "f:-2.25", "d:2.5", "d:4", "d:-0.5", "s:abc", "s:3", "s:", "b:true", "b:false", "n",
 	"t:86400", "ts:1500", "a", "o", "i:1", "i:2", "d:0", "d:1", "i:9223372036854775807", "l:-9223372036854775808", "l:9007199254740993", "d:NaN", "d:+Inf", "f:0.1"}
 
+var hostZoneForNext = ""
+
 func genC08(g *Gen) {
 	r := g.Rand()
 	// the random functions stay inside [0,1) over many draws and over many generator states
@@ -258,7 +307,11 @@ func genC08(g *Gen) {
 		for i, s := range specs {
 			sl[i] = s
 		}
-		g.Run(gen, []Ev{{"op": "fn", "mgr": mgr, "name": name, "argspec": sl}})
+		ev := Ev{"op": "fn", "mgr": mgr, "name": name, "argspec": sl}
+		if hostZoneForNext != "" {
+			ev["hostzone"] = hostZoneForNext
+		}
+		g.Run(gen, []Ev{ev})
 	}
 	nums := []string{"i:0", "i:1", "i:2", "i:3", "i:-8", "i:7", "l:5", "l:-2", "l:0", "f:1.5", "f:-2.25", "f:0", "d:2.5", "d:-0.5", "d:4", "d:0", "d:1", "d:-3.5", "d:0.5", "d:9", "d:16", "i:25", "l:100"}
 	targeted := map[string][][]string{
@@ -274,6 +327,24 @@ func genC08(g *Gen) {
 		"array":     {{}, {"i:1"}, {"i:1", "s:x", "n"}, {"a", "o", "d:1", "i:2", "i:3", "i:4", "i:5", "i:6"}},
 		"abs":       {{"i:-8"}, {"i:7"}, {"l:-9007199254740993"}, {"l:9007199254740993"}, {"i:-9223372036854775807"}, {"l:-9223372036854775808"}, {"f:-2.25"}, {"d:-0.5"}, {"d:3.5"}, {"s:-3"}, {"b:true"}, {"n"}, {"a"}},
 	}
+	// Date with components that have to be carried (months > 12, days > 31, hours > 23, huge fractions), also on hosts whose zone has daylight saving
+	for _, hz := range []string{"", "Europe/Berlin", "America/New_York", "Australia/Lord_Howe"} {
+		hostZoneForNext = hz
+		for _, cs := range [][]int{{2021, 10, 31, 0, 30, 0, 10800000000000}, {2021, 3, 28, 0, 30, 0, 10800000000000}, {2021, 10, 31, 2, 30}, {2021, 3, 28, 2, 30}, {2021, 11, 7, 1, 30, 0}, {2021, 3, 14, 2, 30},
+			{2020, 13, 1}, {2020, 0, 0}, {2021, 2, 31}, {2021, 12, 31, 25, 61, 61}, {2021, 1, 1, -1, -1, -1, -1}, {2021, 10, 30, 27, 0, 0}, {2021, 10, 31, 0, 0, 10800}, {2021, 4, 4, 1, 45, 0, 1800000000000}, {1, 1, 1}, {9999, 12, 31}} {
+			specs := make([]string, len(cs))
+			for i, c := range cs {
+				specs[i] = fmt.Sprintf("i:%d", c)
+			}
+			emit("Date with carried components x host zones", "unsafe", "Date", specs)
+			specs[0] = fmt.Sprintf("l:%d", cs[0])
+			emit("Date with carried components x host zones", "safe", "date", specs[:2])
+		}
+		for _, u := range []string{"t:1636263000", "t:1636266600", "t:1635640200", "t:1616893200"} {
+			emit("Date with carried components x host zones", "unsafe", "DayOfWeek", []string{u})
+		}
+	}
+	hostZoneForNext = ""
 	// calendar sweeps: the last days of every month in leap and common years, the ends of the day; the weekday of every day of four years
 	for _, mgr := range []string{"unsafe", "safe"} {
 		for _, y := range []int{1972, 1999, 2000, 2023, 2024, 2100} {
